@@ -102,6 +102,10 @@ def seeded(vc, a):
         meta = json.load(open(os.path.join(d, "meta.json")))
         patch = os.path.join(d, "patch.diff")
         checks = meta.get("checks") or [meta["property"]]
+        if meta.get("equivalent_after"):
+            print(f"{mid}: skipped - behaviour-preserving on the current tree since fix {meta['equivalent_after']}")
+            results[mid] = "equivalent-after-" + meta["equivalent_after"]
+            continue
         ap = subprocess.run(["git", "-C", "/repo", "apply", patch], capture_output=True, text=True)
         if ap.returncode != 0:
             print(f"{mid}: patch does not apply: {ap.stderr.strip()[:200]}")
